@@ -76,6 +76,8 @@ func ConfTag(c *sdl.Conf) string {
 		key, val = "value", "#{${"+c.Keys[0]+"} % 3}"
 	case "sumDef2":
 		key, val = "value", "#{${"+c.Keys[0]+":"+c.Default+"}+${"+c.Keys[1]+":"+c.Default2+"}}"
+	case "typePrefixDyn":
+		return "" // no tag: the field's value names its prefix
 	case "prefixInt", "prefixStr", "prefixStruct", "prefixStructV":
 		key, val = "prefix", c.Keys[0]
 	case "nested":
@@ -185,11 +187,11 @@ func Emit(progs []*sdl.Program) string {
 			}
 		}
 	}
-	b.WriteString("// Code generated by verifsim/gen. DO NOT EDIT.\n\npackage progs\n\nimport (\n\t\"reflect\"\n\n\t\"github.com/go-kid/ioc/syslog\"\n\n")
+	b.WriteString("// Code generated by verifsim/gen. DO NOT EDIT.\n\npackage progs\n\nimport (\n\t\"reflect\"\n\n\t\"github.com/go-kid/ioc/container\"\n\t\"github.com/go-kid/ioc/syslog\"\n\n")
 	if hasAlt {
 		b.WriteString("\taltprogs \"verifbatch/alt/progs\"\n")
 	}
-	b.WriteString("\t\"verifbatch/ifc\"\n\t\"verifsim/simrt\"\n)\n\nvar _ = simrt.ErrInjected\nvar _ syslog.Logger\nvar _ ifc.Marker\n\n")
+	b.WriteString("\t\"verifbatch/ifc\"\n\t\"verifsim/simrt\"\n)\n\nvar _ = simrt.ErrInjected\nvar _ syslog.Logger\nvar _ container.Factory\nvar _ ifc.Marker\n\n")
 	var typeNames []string
 	localTypes := map[string]bool{}
 	for _, p := range progs {
@@ -274,7 +276,7 @@ func EmitAlt(progs []*sdl.Program) string {
 const sealedHidden = 24
 
 // confGoTypes: non-scalar Go types of configuration fields (SDL name -> Go type).
-var confGoTypes = map[string]string{"float": "float64", "ints": "[]int", "intp": "*int", "dur": "simrt.Dur", "strmap": "map[string]string", "cfgpv": "*simrt.CfgPV"}
+var confGoTypes = map[string]string{"float": "float64", "ints": "[]int", "intp": "*int", "dur": "simrt.Dur", "strmap": "map[string]string", "cfgpv": "*simrt.CfgPV", "cfgpd": "*simrt.CfgPD"}
 
 func emitType(b *strings.Builder, p *sdl.Program, t *sdl.Type) {
 	if t.Local {
@@ -362,7 +364,7 @@ func emitType(b *strings.Builder, p *sdl.Program, t *sdl.Type) {
 			c.fields = append(c.fields, fmt.Sprintf("%s `%s`", gt, ConfTag(cf)))
 			continue
 		}
-		if cf.Menu == "typePrefix" {
+		if cf.Menu == "typePrefix" || cf.Menu == "typePrefixDyn" {
 			// no tag at all: the field's type names the prefix
 			c.fields = append(c.fields, fmt.Sprintf("%s %s", cf.Field, gt))
 			continue
@@ -511,6 +513,12 @@ func emitType(b *strings.Builder, p *sdl.Program, t *sdl.Type) {
 	}
 	if t.Init {
 		fmt.Fprintf(b, "%sInit() error { return c.Sim.OnInit(c) }\n", r)
+	}
+	if t.FactoryPP {
+		fmt.Fprintf(b, "%sPostProcessComponentFactory(factory container.Factory) error { return c.Sim.OnFactoryHook() }\n", r)
+	}
+	if t.DefRegPP {
+		fmt.Fprintf(b, "%sPostProcessDefinitionRegistry(registry container.DefinitionRegistry, component any, componentName string) error {\n\treturn nil\n}\n", r)
 	}
 	if t.APS {
 		fmt.Fprintf(b, "%sAfterPropertiesSet() error { return c.Sim.OnAPS(c) }\n", r)
